@@ -96,7 +96,6 @@ DTYPES = {"float": np.float64, "int": np.int64, "complex": np.complex128, "float
 INT_KINDS = ("int", "int32", "int16", "uint8", "uint16", "int64")
 UNSIGNED = ("uint8", "uint16")
 LOWPREC = ("float32", "complex64")
-KNOWN_RSUB = "C03-rsub-unsigned-wraps"
 
 
 def build_mesh(m):
@@ -966,7 +965,13 @@ def typed_case(rng, tier):
     a = ["leaf", 0]
     r = rng.random()
     tags = []
-    if r < 0.2:
+    if dta in UNSIGNED and r > 0.7:
+        # non-integral number / tuple / list minus an unsigned field (reflected subtraction)
+        b = rng.choice([["num", False, [g.qs(F(rng.randint(1, 9), 2)), "0/1"]],
+                        ["vec", False, [[g.qs(F(rng.randint(1, 29), 2)), "0/1"] for _ in range(nv)],
+                         rng.choice(["tuple", "list"])]])
+        e = ["bin", "sub", None, b, a]
+    elif r < 0.2:
         e = ["un", rng.choice(["abs", "pos", "real", "conj"]) if dta in UNSIGNED else
              rng.choice(["abs", "neg", "pos", "real", "imag", "conj"]), None, a]
         if rng.random() < 0.5:
@@ -1130,20 +1135,6 @@ def same_result(r1, r2):
     return (r1.nvdim == r2.nvdim and r1.mesh == r2.mesh and np.array_equal(r1.valid, r2.valid)
             and r1.array.shape == r2.array.shape and str(r1.array.dtype) == str(r2.array.dtype)
             and np.array_equal(r1.array, r2.array, equal_nan=True) and vec_labels(r1) == vec_labels(r2))
-
-
-def rsub_unsigned(e, leaves):
-    if e[0] == "un":
-        return rsub_unsigned(e[3], leaves)
-    if e[0] != "bin":
-        return False
-    if e[1] == "sub" and is_const(e[3]) and not e[3][1] and e[3][0] != "arr":
-        x = e[4]
-        while x[0] == "un" and x[1] == "pos":
-            x = x[3]
-        if x[0] == "leaf" and leaves[x[1]].array.dtype.kind == "u":
-            return True
-    return rsub_unsigned(e[3], leaves) or rsub_unsigned(e[4], leaves)
 
 
 def root_alg(e):
@@ -1343,12 +1334,7 @@ def run_case(c):
             rec["oracle"].append("valid-expression-rejected")
     # --- Gallina record
     coq = None
-    if rsub_unsigned(e, leaves):
-        # known: number / tuple / list minus an unsigned field is computed as -self + other and wraps
-        rec["tags"].append(KNOWN_RSUB)
-        if st == "ok" and "array-not-cellwise" not in rec["oracle"]:
-            pass
-    elif ref is not None or st != "ok":
+    if ref is not None or st != "ok":
         if ref is not None:
             exact = ctx.all_exact and ctx.keys_exact
             tol = F(0) if exact else F(ctx.rel) * F(ctx.scale)
